@@ -359,7 +359,7 @@ func (in *Interp) modelValues() []NondetValue {
 	out := make([]NondetValue, 0, len(in.nondet))
 	for _, nv := range in.nondet {
 		switch nv.Kind {
-		case "byte", "u64", "clock":
+		case "byte", "u64", "clock", "gomaxprocs", "numcpu":
 			out = append(out, NondetValue{nv.Label, nv.Kind, in.evalT(nv.Terms[0])})
 		case "int", "choice":
 			out = append(out, NondetValue{nv.Label, nv.Kind, int64(in.evalT(nv.Terms[0]))})
